@@ -17,7 +17,7 @@ prop("C01", run="^TestC01", level="exploration",
 
 prop("C03", run="^TestC03", level="exploration",
      quick=(16, 1200, 900), thorough=(16, 30000, 7200),
-     rule=FRAME_GEN + "; streams of 1..8 frames on one (version, compression) followed by sentinel bytes, decoded through a generated reader kind (*bytes.Buffer, *bytes.Reader, bufio.Reader, counting reader, short reads) with exact per-frame consumption; one frame in three is edited after its first encoding (tracing id / warnings / payload toggled, message replaced) and encoded again from the same Frame object; every primitive LengthOf*/Write* pair on generated values; "
+     rule=FRAME_GEN + "; streams of 1..8 frames on one (version, compression) followed by sentinel bytes, decoded through a generated reader kind (*bytes.Buffer, *bytes.Reader, bufio.Reader, counting reader, short reads) with exact per-frame consumption; one frame in three is edited after its first encoding (tracing id / warnings / payload toggled, message replaced, named values added next to positional ones - documented as tolerated, the positional ones win) and encoded again from the same Frame object; before one frame in four the codec is first asked to encode a frame it must refuse half-way through its body (a nil value after a regular one); every primitive LengthOf*/Write* pair on generated values; "
           "vint boundary table (2^k-1,2^k,2^k+1, k=0..64, both signs); non-trivial = stream has >= 2 frames or a body-prefix part / primitive encoding > 2 bytes; distinct by stream bytes hash",
      assumptions=["a frame's consumed length is measured by the source's own remaining-length (bytes.Buffer/Reader), or a counting reader minus what bufio still buffers"],
      text="Randomised exploration of length agreement (header vs emitted, EncodedLength vs Encode, LengthOf* vs Write*) and of exact stream consumption over generated frame sequences.",
@@ -89,7 +89,7 @@ prop("C07", run="^TestC07", level="fault_enumeration",
      quick=(8, 4000, 900), thorough=(16, 300000, 10800),
      rule="faults on encoded segments: header+CRC-24 bit patterns - quick: all of weight 1..3 over the 48/64 bits of 10 base segments + rapid-sampled weights 1..7 on generated headers; thorough: all weights 1..7 (48-bit base) / 1..6 (64-bit base) / 1..4 (other bases); "
           "payload+CRC-32: every single-bit flip, every pair (payloads <= 256 B), every burst start x length 1..32 x 4 interior masks on payloads of 0..255 (thorough ..4096) bytes, rapid-sampled singles/pairs/bursts on payloads up to 131071 bytes, with and without LZ4. "
-          "structured alterations on generated segments (CRC-24 / CRC-32 bytes in every other order, complemented, zeroed; any two header bytes exchanged) kept to the guaranteed range; the codec under attack has decoded the intact segment before (and keeps doing so). "
+          "structured alterations on generated segments (CRC-24 / CRC-32 bytes in every other order, complemented, zeroed - the header CRC also together with a flip of the self-contained flag; any two header bytes exchanged) kept to the guaranteed range; the codec under attack has decoded the intact segment before (and keeps doing so). "
           "Header faults are followed by a lazily built tail valid for the lengths the altered header declares. Every case alters >= 1 bit (all non-trivial); distinct by (base, pattern) - enumerations are distinct by construction",
      assumptions=["burst bits are numbered in wire order, least-significant bit of each byte first (the order in which the reflected CRC-32 is a polynomial code)",
                   "the consistent tail uses Go's hash/crc32 and a literal-only LZ4 block; a few compressed lengths have no single-sequence literal block and get a zero tail"],
@@ -155,7 +155,7 @@ prop("C14", run="^TestC14", level="exploration",
 prop("C17", run="^TestC17", level="exploration",
      quick=(16, 40, 900), thorough=(16, 2500, 7200),
      rule="every type with a deep-copy operation (66 registry entries, checked against the DeepCopy* receivers found in the working tree) x values filled reflectively from rapid draws (all exported fields; pointers non-nil 90%; slices/maps nil, empty or 1..3 elements, "
-          "slices with spare capacity, byte strings of 65535..200000 bytes now and then; interface fields holding random registry members, nested to depth ~4) x every available operation (DeepCopy, DeepCopyInto a zero value, DeepCopyInto a shallow copy of the source, DeepCopyMessage, DeepCopyDataType). Oracle: reflect.DeepEqual(copy, original); every mutable location reachable "
+          "slices with spare capacity, byte strings of 65535..200000 bytes now and then; interface fields holding random registry members, nested to depth ~4) x every available operation (DeepCopy, DeepCopyInto a zero value, DeepCopyInto a shallow copy of the source, DeepCopyMessage, DeepCopyDataType); one pair of same-typed reference fields in four holds the SAME object in the source; byte arrays are all-zero one time in six. Oracle: reflect.DeepEqual(copy, original); every mutable location reachable "
           "from the copy (slice elements first/last, append within capacity, nil-ing elements, map replace/delete/insert, pointer targets, nested structs; up to 400 mutations per value) is mutated while a full dump of the original must not change; then the reverse. "
           "Non-trivial = the value has at least one pointer/slice/map populated; distinct by (type, value hash); TestC17AllTypes runs every registry type each run",
      assumptions=["datatype.PrimitiveType has only an unexported field and is used through shared exported singletons: not mutable through the API, only equality is checked"],
@@ -186,7 +186,7 @@ prop("C09", run="^TestC09", level="exploration",
           "with rapid-generated schedules (yield / sleep / bounded rendez-vous) at the hook points between the duplicate check and the registration and after the response lookup; per-id counters of accepted-unanswered requests, conservation after drain. "
           "Final responses take four forms (plain result, non-fatal error, last continuous page without / with a paging state). Socket level (worker-isolated): a real client connection with MaxInFlight=N in 1..12 and an independent MaxPending in 1..12 against a raw server peer, all versions x compression: N managed sends accepted with distinct ids in 1..N as seen ON THE WIRE, one more refused without blocking, "
           "0..3 rounds answering a generated subset then refilling exactly that many, drain, N again; 1 case in 12 under back-pressure (N in {1025,1500,2500}, 4-16 KiB requests, the peer starts reading only after all N were accepted). "
-          "Requests the library completed early (more than MaxPending unread pages, or a 40 ms timeout) followed by their final responses: nothing stays registered and N new sends succeed. "
+          "Requests the library completed early (more than MaxPending unread pages, or a 40 ms timeout): until their final responses arrive a further send is refused; after them nothing stays registered and N new sends succeed. Ping-pong (N=1,2; 200-1500 iterations; responder on another goroutine; busy polling or blocking receive): a send made right after a final response was received is never refused. "
           "Non-trivial = history contains a refusal, an id reuse or a final response followed by further actions / any concurrent round; distinct by (N, history) or (round parameters, schedule)",
      assumptions=["mixing managed and caller-chosen ids on one connection is 'not recommended' by the doc comment but is inside the property's quantifier",
                   "acceptance of a send is only REQUIRED in the all-answered state (N sends must succeed); refusals while fewer than N are unanswered are allowed"],
@@ -210,7 +210,7 @@ prop("C10", run="^TestC10", level="exploration",
      quick=(8, 120, 900), thorough=(16, 5000, 7200),
      rule="shim level: ALL answer orders for k=1..5 outstanding requests (153 orders, each with a spurious response in the middle); rapid-generated interleavings for k<=12 with multi-page answers of 1..MaxPending pages (complete or cut short) and spurious responses, consumers reading after all deliveries. "
           "Socket level (worker-isolated): library client x raw server peer, every version incl. v5 segments x compression, k<=10 tagged requests from 1..4 concurrent senders, answered in a generated order interleaved with EVENT envelopes (stream id -1, an unused id, or the id of a request still awaiting its answer: an EVENT is recognised by its opcode) and responses for an unused stream id, single-frame answers that are a READY (header-only envelope) for 1 request in 5, responses batched into few segments or sent one by one, multi-page answers on DSE versions. "
-          "Event load: MaxInFlight (= event queue capacity) 1..4, up to 5 events beyond it pushed before a barrier response while nobody drains the event channel: every event reaches the handlers in order, the channel holds an in-order subsequence. Oracle: per request exactly its tagged frames in arrival order, channel closed after the last page with Err()==nil; events on the event channel and through handlers, in order, nothing else there; unknown-id responses change nothing. Non-trivial = >=2 outstanding requests or multi-page / interleaved extras; distinct by (k, pages, order) / session spec",
+          "A fatal ERROR (server / protocol / authentication error) as the last of k responses is delivered to its request like any other before the connection is dropped. Event load: MaxInFlight (= event queue capacity) 1..4, up to 5 events beyond it pushed before a barrier response while nobody drains the event channel: every event reaches the handlers in order, the channel holds an in-order subsequence. Oracle: per request exactly its tagged frames in arrival order, channel closed after the last page with Err()==nil; events on the event channel and through handlers, in order, nothing else there; unknown-id responses change nothing. Non-trivial = >=2 outstanding requests or multi-page / interleaved extras; distinct by (k, pages, order) / session spec",
      assumptions=["multi-page answers never exceed MaxPending undelivered pages (beyond that the request is failed by design)"],
      text="Exhaustive small permutations plus randomised interleavings against a per-request expected-sequence oracle, at handler level and over real sockets.",
      note="Trusted: the raw peer and the tag scheme (tag carried in the response message content).",
@@ -223,7 +223,7 @@ prop("C16", run="^TestC16", level="fault_enumeration",
           "server-connection Close, server Close, context cancel, peer TCP close/reset} injected after each of the 5 step boundaries: the full (peer x fault x boundary x version in {4,5,DSE2}) matrix every run, plus rapid-generated sessions, plus rapid-generated schedules (yield / sleep / wait-until-point-reached, bounded 300 ms) "
           "at 13 hook points of the client package. (C) faults in the MIDDLE of the handshake: a library server connection blocked in AcceptHandshake (raw client silent, after OPTIONS/SUPPORTED, or after STARTUP/AUTHENTICATE) or a library client blocked in InitiateHandshake (raw server silent after STARTUP or after AUTH_RESPONSE) x {peer FIN, peer RST, own Close, server Close, context cancel} x version x auth: "
           "the blocked call returns a non-nil error, Close returns, no goroutine survives. (D) timeout clause on a real connection: ReadTimeout drawn independently of ConnectTimeout (150-600 ms vs 20-60 s with a silent raw peer: the request fails with a timeout after >= 80 % and < read timeout + 8 s; 3-4 s vs 250-400 ms with an answer at 20-30 %: it is delivered). "
-          "After the handler is closed IsDone/Err/Incoming of completed requests still return. Worker-isolated. Oracle within 10 s: every accepted unanswered request has its channel closed, IsDone() and Err()!=nil; blocked receivers return; later Send fails; Close returns (twice, concurrently); no goroutine of the client package survives; no panic. "
+          "After the handler is closed IsDone/Err/Incoming of completed requests still return. One session in three uses caller-chosen stream ids outside 1..MaxInFlight (2000, -7, 32767). Worker-isolated. Oracle within 10 s: every accepted unanswered request has its channel closed, IsDone() and Err()!=nil; blocked receivers return; later Send fails; Close returns (twice, concurrently); no goroutine of the client package survives; no panic. "
           "Non-trivial = the fault lands with an unanswered request, a blocked receiver or before the script's end; distinct by session spec",
      assumptions=["all time bounds are generous upper bounds (10 s against sub-second behaviour); only 'still not done after the bound' or a panic counts",
                   "the window inside Send's select statement (operand evaluated, channel closed by Close, then send) has no hook point and is only reachable by stress repetition"],
@@ -234,7 +234,7 @@ prop("C16", run="^TestC16", level="fault_enumeration",
 prop("C18", run="^TestC18", level="exploration", race=True,
      quick=(8, 20, 1200), thorough=(16, 1500, 10800),
      rule="rounds of 2..16 goroutines x 1..12 generated work items x 1..6 repeats on SHARED instances: one frame.RawCodec per compressor {none, LZ4, Snappy}, one segment.Codec per {none, LZ4}, the package-level message codecs, the datacodec singletons and cached nested codecs (NewCodec results shared by type), "
-          "the compressor values. Half of the rounds are cold starts (the sequential reference results are computed AFTER the concurrent phase, so per-type caches and pools are first touched concurrently). Work items: UDT values written from / read into Go struct types that did not exist before, compressed frames with a corrupt body (refused) on the same shared codec, decoded segment payloads held across yields, frame encode+decode, raw paths (ConvertToRawFrame, EncodeRawFrame, DecodeRawFrame, ConvertFromRawFrame, DecodeHeader+DiscardBody), segment encode+decode, message Encode/EncodedLength/Decode, CQL value Encode/Decode through a drawn representation, compress+decompress in both LZ4 formats and Snappy; per-goroutine yields drawn by rapid; all goroutines released from one barrier. "
+          "the compressor values. Half of the rounds are cold starts (the sequential reference results are computed AFTER the concurrent phase, so per-type caches and pools are first touched concurrently). Half of the rounds add a group (every goroutine uses the SAME scalar codec through the SAME representation - the textual one where there is one - on 2-3 values that recur across goroutines). TestC18ColdProcess: 6 (thorough 60) fresh processes in which 16 goroutines make the FIRST use of segment / LZ4 segment / frame x 3 compressors / 6 value codecs together, compared with the same calls made alone afterwards, race reports of the fresh process included. Work items: headers with unsupported versions that the shared codec must refuse (the error text is compared), UDT values written from / read into Go struct types that did not exist before, compressed frames with a corrupt body (refused) on the same shared codec, decoded segment payloads held across yields, frame encode+decode, raw paths (ConvertToRawFrame, EncodeRawFrame, DecodeRawFrame, ConvertFromRawFrame, DecodeHeader+DiscardBody), segment encode+decode, message Encode/EncodedLength/Decode, CQL value Encode/Decode through a drawn representation, compress+decompress in both LZ4 formats and Snappy; per-goroutine yields drawn by rapid; all goroutines released from one barrier. "
           "Oracle: each concurrent result == the result of the same call made sequentially beforehand (digest of bytes, or canonical frame / abstract value where map order is free); built with -race, any race report fails the run. Every round is non-trivial (>= 2 goroutines on shared instances); distinct by round parameters and item kinds",
      assumptions=["interleavings are sampled by the Go scheduler (no hook points in the codec packages); the race detector's happens-before analysis is what exposes a shared scratch buffer without the exact overlap"],
      text="Randomised concurrent stress under the race detector with result comparison against sequential execution.",
